@@ -174,8 +174,8 @@ def solver_search(w, out, thorough):
         op, (d, q, u), m = w.atoms[k]
         n = m.shape[1]
         cplx = np.iscomplexobj(m)
-        for trial in range(2 if thorough else 1):
-            c = r.integers(-4, 5, n).astype(float) + (1j * r.integers(-3, 4, n) if (cplx or r.random() < .3) else 0)
+        for trial in range(2):          # a real and a complex right-hand side for every operator
+            c = r.integers(-4, 5, n).astype(float) + (1j * r.integers(-3, 4, n) if (cplx or trial == 1) else 0)
             f = api.GridFunction(sp[d], coefficients=c)
             b = op * f
             # --- lu
@@ -196,9 +196,10 @@ def solver_search(w, out, thorough):
             for strong in (False, True):
                 if strong and not (sp[q] == b.space):
                     continue
-                for tol in (tols if (thorough or k < 3) else [1e-6, 1e-10]):
+                for ti, tol in enumerate(tols if (thorough or (k < 3 and trial == 0)) else [1e-6, 1e-10]):
                     for solver in (["gmres", "cg"] if k in w.spd else ["gmres"]):
-                        check_iterative(w, out, op, m, (d, q, u), b, c, strong, tol, solver, r)
+                        check_iterative(w, out, op, m, (d, q, u), b, c, strong, tol, solver, r,
+                                        restart=[None, 3, 20][(k + trial + ti) % 3])
         # ill-typed strong form must be rejected
         other = [i for i in (0, 1) if w.sid[i] != w.sid[q]]
         if other:
@@ -214,10 +215,11 @@ def solver_search(w, out, thorough):
     blocked_search(w, out, thorough)
 
 
-def check_iterative(w, out, op, m, t, b, c, strong, tol, solver, r):
+def check_iterative(w, out, op, m, t, b, c, strong, tol, solver, r, restart=None):
     out["evaluations"] += 1
     d, q, u = t
-    restart = int(r.choice([2, 5, 20])) if solver == "gmres" and r.random() < .5 else None
+    if solver != "gmres":
+        restart = None
     kw = dict(tol=tol, use_strong_form=strong, return_residuals=True, return_iteration_count=True)
     if solver == "gmres":
         kw["restart"] = restart
@@ -329,6 +331,56 @@ def blocked_search(w, out, thorough):
                 except Exception as ex:
                     rec(out, "C15:gmres-blocked-%s:raises-%s[%s]" % ("strong" if strong else "weak", type(ex).__name__, name),
                         str(ex)[:120])
+    # (ii-b) blocks of different sizes: P1 on the tetrahedron (4 dofs) and P1 on the octahedron (6 dofs), complex right-hand side,
+    # weak and strong form
+    pa, pb = sp[0], sp[2]
+    mk2 = lambda d, q, u, m: BoundaryOperatorWithAssembler(d, q, u, c14.StubAssembler(m), None)  # noqa: E731
+    maa = r.integers(-2, 3, (4, 4)).astype(float) + 8 * np.eye(4)
+    mab = r.integers(-2, 3, (4, 6)).astype(float)
+    mba = r.integers(-2, 3, (6, 4)) + 1j * r.integers(-2, 3, (6, 4))
+    mbb = r.integers(-2, 3, (6, 6)).astype(float) + 8 * np.eye(6)
+    B2 = api.BlockedOperator(2, 2)
+    B2[0, 0], B2[0, 1], B2[1, 0], B2[1, 1] = mk2(pa, pa, pa, maa), mk2(pb, pa, pa, mab), mk2(pa, pb, pb, mba), mk2(pb, pb, pb, mbb)
+    ref2 = np.block([[maa, mab], [mba, mbb]])
+    cs2 = [r.integers(-4, 5, 4) + 1j * r.integers(-3, 4, 4), r.integers(-4, 5, 6) + 1j * r.integers(-3, 4, 6)]
+    fs2 = [api.GridFunction(pa, coefficients=cs2[0]), api.GridFunction(pb, coefficients=cs2[1])]
+    name = "different-block-sizes"
+    out["evaluations"] += 1
+    try:
+        b2 = B2 * fs2
+        sol = api.linalg.lu(B2, b2)
+        if not all(close(g.coefficients, c) and g.space == s_ for g, c, s_ in zip(sol, cs2, B2.domain_spaces)):
+            rec(out, "C15:lu-blocked:lu(A,A*f)-differs-from-f[%s]" % name, "blocked lu does not recover f")
+        for strong in (False, True):
+            for tol, restart in ((1e-6, None), (1e-10, 4)):
+                out["evaluations"] += 1
+                x, info, res, count = api.linalg.gmres(B2, b2, tol=tol, restart=restart, use_strong_form=strong,
+                                                       return_residuals=True, return_iteration_count=True, maxiter=300)
+                xv = np.concatenate([np.asarray(g.coefficients) for g in x])
+                cv = np.concatenate(cs2)
+                tag = "strong" if strong else "weak"
+                if info != 0:
+                    rec(out, "C15:gmres-blocked-%s:info-nonzero[%s]" % (tag, name), "info=%s" % info)
+                elif np.linalg.norm(xv - cv) > 10 * np.linalg.cond(ref2) * tol * np.linalg.norm(cv):
+                    rec(out, "C15:gmres-blocked-%s:solution-differs-from-f[%s]" % (tag, name),
+                        "error %.2e" % (np.linalg.norm(xv - cv) / np.linalg.norm(cv)))
+                if [g.space == s_ for g, s_ in zip(x, B2.domain_spaces)] != [True, True]:
+                    rec(out, "C15:gmres-blocked:result-spaces-differ[%s]" % name, "")
+                if count != len(res) or count == 0:
+                    rec(out, "C15:gmres-blocked:count-differs-from-residuals[%s]" % name, "%d vs %d" % (count, len(res)))
+                # the same SciPy run observed directly
+                A_op = B2.strong_form() if strong else B2.weak_form()
+                rhs = (c14.blk.coefficients_from_grid_functions_list(b2) if strong
+                       else c14.blk.projections_from_grid_functions_list(b2, B2.dual_to_range_spaces))
+                mine = []
+                x2, _ = scipy.sparse.linalg.gmres(A_op, rhs, rtol=tol, restart=restart, maxiter=300,
+                                                  callback=lambda v: mine.append(float(np.linalg.norm(v))),
+                                                  callback_type="legacy")
+                if len(mine) != count or not np.allclose(mine, res, rtol=1e-9, atol=1e-300):
+                    rec(out, "C15:gmres-blocked-%s:residuals-or-count-differ-from-the-scipy-run[%s]" % (tag, name),
+                        "wrapper %d / scipy %d" % (count, len(mine)))
+    except Exception as ex:
+        rec(out, "C15:blocked:raises-%s[%s]" % (type(ex).__name__, name), str(ex)[:160])
     # (iii) duals whose dof counts differ from the ranges' (octahedron: P1 6, DP0 8): the right-hand side A*f is built by
     # grid_function_list_from_projections
     p1, dp0 = sp[2], sp[4]
